@@ -58,11 +58,11 @@ def plain(f):
 PROFILES = {
     # which functions, pure bodies?, extra event kinds, threads
     "C01": dict(lifetime=True, sel=lambda f: True, pure=True, events=["tick", "invw", "tag", "invc"], threads=2),
-    "C02": dict(sel=lambda f: f["sig"] in (1, 2, 4, 5, 6, 7, 8, 9, 10, 11, 12), pure=True, events=[], threads=2),
+    "C02": dict(sel=lambda f: f["sig"] in (1, 2, 4, 5, 6, 7, 8, 9, 10, 11, 12, 13, 14), pure=True, events=[], threads=2),
     "C03": dict(pingpong=True, sel=plain, pure=True, events=[], threads=3),
     "C09": dict(lifetime=True, refresh=True, exactfit=True, sel=lambda f: f["is_result"] and not f["cache_if"], pure=False, events=["tick"], threads=1),
-    "C10": dict(lifetime=True, exactfit=True, sel=lambda f: f["cache_if"], pure=False, events=["tick"], threads=1),
-    "C11": dict(refresh=True, lifetime=True, sel=lambda f: f["inval_on"], pure=False, events=["tick"], threads=1),
+    "C10": dict(lifetime=True, exactfit=True, async_cases=True, async_sel=True, sel=lambda f: f["cache_if"], pure=False, events=["tick"], threads=1),
+    "C11": dict(refresh=True, lifetime=True, slowbody=True, sel=lambda f: f["inval_on"], pure=False, events=["tick"], threads=1),
     "C12": dict(sel=lambda f: bool(f["tags"] or f["events"] or f["deps"]) or f["idx"] % 7 == 0, pure=True,
                 events=["tag", "event", "dep", "invc", "invcn"], threads=1, heavy_inval=True),
     "C13": dict(sel=lambda f: f["fl"] != "t" or f["idx"] % 5 == 0, pure=True,
@@ -74,10 +74,10 @@ PROFILES = {
     "C04R": dict(refresh=True, lifetime=True, sel=lambda f: f["limit"] is not None and (f["is_result"] or f["inval_on"] or f["cache_if"]),
                  pure=False, events=["tick", "invw", "invwb"], threads=1),
     "C05": dict(exactfit=True, sel=lambda f: f["mem"] is not None, pure=False, events=["invw"], threads=2),
-    "C06": dict(async_cases=True, lifetime=True, sel=lambda f: f["ttl"] is not None, pure=True, events=["tick", "invw"], threads=2),
+    "C06": dict(async_cases=True, lifetime=True, slowbody=True, sel=lambda f: f["ttl"] is not None, pure=True, events=["tick", "invw"], threads=2),
     "C07": dict(pingpong=True, sel=lambda f: f["pol"] in ("fifo", "lru") and (f["limit"] or f["mem"]), pure=True, events=["invw", "invall", "tag", "event", "dep", "invc"], threads=3),
     "C08": dict(scores=True, pingpong=True, sel=lambda f: f["pol"] in ("lfu", "arc", "tlru") and (f["limit"] or f["mem"]), pure=True, events=["invw", "tick", "tag", "invc"], threads=3),
-    "C15": dict(sel=lambda f: f["fl"] != "t", pure=True, events=["sget", "sreset", "sgetn", "tick", "invw"], threads=3),
+    "C15": dict(twins=True, sel=lambda f: f["fl"] != "t", pure=True, events=["sget", "sreset", "sgetn", "tick", "invw", "tag", "event", "invc"], threads=3),
     "C19": dict(scores=True, refresh=True, lifetime=True, exactfit=True, sel=lambda f: True, pure=True, events=["tick", "tag", "invw", "sget"], threads=2),
     # every operation returns, also in a sequential history (a self-deadlock on a lock the hooks cannot see)
     "C17": dict(refresh=True, lifetime=True, sel=lambda f: True, pure=False,
@@ -86,9 +86,9 @@ PROFILES = {
 }
 
 LENS = [4, 8, 16, 40, 76]
-TAGS = ["t1", "t2", "tx", "chainA", "chainB", "mass"]
-EVENTS = ["e1", "e2", "ex", "chainA", "massev"]
-DEPS = ["d1", "d2", "dx", "chainA", "chainB"]
+TAGS = ["t1", "t2", "tx", "chainA", "chainB", "mass", "dup1", "dup3", "xk1"]
+EVENTS = ["e1", "e2", "ex", "chainA", "massev", "dup1", "dup2", "xk1", "xk2"]
+DEPS = ["d1", "d2", "dx", "chainA", "chainB", "dup2", "dup3", "xk1", "xk2"]
 
 
 def gen_chain_case(r, fns):
@@ -130,6 +130,39 @@ def gen_slow_refresh_case(r, fns):
     return [f], evs
 
 
+def gen_slow_body_case(r, fns, prof):
+    """sync functions with a ttl whose body takes REAL time (a slow backend) longer than the ttl: the entry is born when it
+    is STORED, so the call that follows at once is served.  Either the entry expired (plain refresh) or invalidate_on
+    rejected it (stale refresh).  One key, one function: nothing else ages meanwhile"""
+    pool = [f for f in fns if prof["sel"](f) and f["fl"] in ("g", "t") and f["ttl"] and f["sig"] == 0 and not f["gates"]
+            and not f["cache_if"] and not f["mem"]]
+    if not pool:
+        return None
+    f = r.pick(pool)
+    T = f["ttl"] * 1000
+    x = r.pick([1, 2])
+    tid = r.below(prof["threads"])
+    vc = [r.below(40)]
+
+    def ev(dt, inv=0, slow=0):
+        if prof["pure"]:
+            v = (f["idx"] * 37 + x * 11) % 500 + 1
+        else:
+            vc[0] += 1
+            v = vc[0]
+        base = "%d %d %d ok %d 8 %d 1" % (f["idx"], x, tid, v, inv)
+        return ("E %d calls %s %d" % (dt, base, slow)) if slow else ("E %d call %s" % (dt, base))
+    evs = [ev(0)]
+    if f["inval_on"] and r.chance(2, 3):
+        evs.append(ev(250, inv=1, slow=T + 150))      # judged stale, refreshed by a slow body
+    else:
+        evs.append(ev(T, slow=T + 150))               # expired, refreshed by a slow body
+    evs.append(ev(0))                                 # must be served
+    evs.append(ev(T - 250))                           # still younger than the ttl: served
+    evs.append(ev(250))                               # now it is T old: expired
+    return [f], evs
+
+
 def gen_tight_replace_case(r, fns):
     """max_memory with room for exactly two values: one key is cached; a call for a second key is suspended in its body;
     another call for that second key completes and stores; the first resumes and stores again (a pure replacement):
@@ -144,11 +177,13 @@ def gen_tight_replace_case(r, fns):
     return [f], evs
 
 
-def gen_async_case(r, fns):
+def gen_async_case(r, fns, sel=None):
     """a call suspended at an await point of its body; other operations meanwhile; resume or drop"""
     gated = [f for f in fns if f["gates"]]
+    if sel is not None and any(sel(f) for f in gated):
+        gated = [f for f in gated if sel(f)]
     f = r.pick(gated)
-    others = [g for g in fns if g["fl"] != "t" and g["idx"] != f["idx"] and not g["gates"]]
+    others = [g for g in fns if g["fl"] != "t" and g["idx"] != f["idx"] and not g["gates"] and g["ret"] != 6]
     g = r.pick(others)
     cap = (f["limit"] or 3) + 2
     evs, vc = [], [0]
@@ -355,6 +390,31 @@ def gen_exact_fit_case(r, fns, prof):
     return [f], evs
 
 
+def gen_twins_case(r, fns):
+    """caches whose names are equal up to letter case / surrounding blanks: their statistics are kept apart"""
+    groups = {}
+    for f in fns:
+        groups.setdefault(f["name"].strip().lower(), []).append(f)
+    twins = [g for g in groups.values() if len(g) > 1]
+    if not twins:
+        return None
+    group = r.pick(twins)
+    evs = []
+
+    def ev(f, x):
+        return "E 0 call %d %d %d ok %d %d 0 1" % (f["idx"], x, r.below(3), (f["idx"] * 37 + x * 11) % 500 + 1, LENS[x % 5])
+    for i, f in enumerate(group):
+        for _ in range(1 + i + r.below(3)):
+            evs.append(ev(f, r.below(3)))
+    for f in group:
+        evs.append("E 0 sget %d" % f["idx"])
+    evs.append("E 0 sreset %d" % r.pick(group)["idx"])
+    for f in group:
+        evs.append(ev(f, r.below(3)))
+        evs.append("E 0 sget %d" % f["idx"])
+    return group, evs
+
+
 def gen_mass_case(r, fns):
     """every cache of a large group under one label is used, the label is fired, every cache is used again"""
     group = [f for f in fns if "mass" in f["tags"]]
@@ -443,8 +503,8 @@ def gen_case(r, fns, prof, nev):
         c = gen_slow_refresh_case(r, fns) if k < 2 else gen_tight_replace_case(r, fns) if k < 4 else None
         return c or gen_async_case(r, fns)
     if prof.get("async_cases") and r.chance(1, 8):
-        c = gen_slow_refresh_case(r, fns) if r.chance(1, 2) else None
-        return c or gen_async_case(r, fns)
+        c = gen_slow_refresh_case(r, fns) if (r.chance(1, 2) and not prof.get("async_sel")) else None
+        return c or gen_async_case(r, fns, prof["sel"] if prof.get("async_sel") else None)
     if prof.get("heavy_inval") and r.chance(1, 10):
         c = gen_bulk_inval_case(r, fns, prof)
         if c:
@@ -455,6 +515,14 @@ def gen_case(r, fns, prof, nev):
             return c
     if prof.get("heavy_inval") and r.chance(1, 12):
         c = gen_mass_case(r, fns)
+        if c:
+            return c
+    if prof.get("twins") and r.chance(1, 12):
+        c = gen_twins_case(r, fns)
+        if c:
+            return c
+    if prof.get("slowbody") and r.chance(1, 16):
+        c = gen_slow_body_case(r, fns, prof)
         if c:
             return c
     if prof.get("exactfit") and r.chance(1, 8):
@@ -515,7 +583,8 @@ def gen_case(r, fns, prof, nev):
             elif kind == "invc":
                 evs.append("E %d invc %d" % (dt, f["idx"]))
             elif kind == "invcn":
-                evs.append("E %d invcn %s" % (dt, r.pick(["nosuch", "f999", "t1"])))
+                # also the IDENTIFIER of a function whose cache carries another name: no cache is called that
+                evs.append("E %d invcn %s" % (dt, r.pick(["nosuch", "f999", "t1"] + ["f%d" % g["idx"] for g in chosen if g["name"] != "f%d" % g["idx"]])))
             elif kind == "invw":
                 cap = 1 if f["sig"] == 3 else (f["limit"] or 3) + 2
                 xs = sorted(set(r.below(cap) for _ in range(r.below(3) + 1)))
@@ -524,7 +593,7 @@ def gen_case(r, fns, prof, nev):
                 g = r.pick([h for h in chosen if h["fl"] != "t"] or chosen)
                 evs.append("E %d invwb %d %d" % (dt, g["idx"], r.below(4)))
             elif kind == "invwn":
-                evs.append("E %d invwn nosuch" % dt)
+                evs.append("E %d invwn %s" % (dt, r.pick(["nosuch"] + ["f%d" % g["idx"] for g in chosen if g["name"] != "f%d" % g["idx"]])))
             elif kind == "invall":
                 parts = []
                 for g in chosen:
@@ -573,6 +642,9 @@ def main():
     a = ap.parse_args()
     fns = read_table(a.table)
     prof = PROFILES[a.prop]
+    if not prof["pure"]:
+        # functions without a return value carry no value to compare: they are used with pure scripts only
+        fns = [f for f in fns if f["ret"] != 6]
     r = Rng(a.seed * 7919 + sum(ord(c) for c in a.prop) * 31)
     hist_fn, hist_ev, samples = {}, {}, []
     with open(a.out, "w") as out:
